@@ -1,9 +1,67 @@
 import PraatModel.Proto
+import PraatModel.Read
+import PraatModel.Save
 
 /-! # driver operations for C01-C04: save path, emitters, parsers (extension point of `Run.lean`) -/
+
+namespace RunIO
+
+def rawTier (t : RawTier) : String :=
+  Out.join ([Out.str t.cls, Out.str t.name, Out.str t.xmin, Out.str t.xmax, toString t.entries.length] ++
+    t.entries.map fun e => Out.join (toString e.length :: e.map Out.str))
+
+def rawTg (g : RawTg) : String :=
+  Out.join ([Out.str g.xmin, Out.str g.xmax, toString g.tiers.length] ++ g.tiers.map rawTier)
+
+def optTxt : Option Txt → String
+  | none => "none"
+  | some t => "some " ++ Out.str (Txt.toStr t)
+
+end RunIO
 
 /-- `none` = not an operation of this group.  `α` is the number type of the run (`Float` or `Int`). -/
 def runOpIO (α : Type) [LT α] [LE α] [DecidableLT α] [DecidableLE α] [BEq α] [Add α] [Sub α] [Tm α] [Proto α]
     (op : String) : Option (P String) :=
   match op with
+  | "parse" => some do
+    let text ← P.str; let iei ← P.bool
+    pure (Out.exc RunIO.rawTg (Rd.parseText (Txt.ofString text) iei))
+  | "u_num" => some do
+    let s ← P.str; let kw ← P.str; let neg ← P.bool
+    pure ("ok " ++ RunIO.optTxt (Rd.matchNum (Txt.ofString s) (Txt.ofString kw) neg))
+  | "u_text" => some do
+    let s ← P.str; let kw ← P.str; let da ← P.bool
+    pure ("ok " ++ RunIO.optTxt (Rd.matchText (Txt.ofString s) (Txt.ofString kw) da))
+  | "u_split" => some do
+    let s ← P.str; let kw ← P.str
+    let parts := Rd.splitKw (Txt.ofString s) (Txt.ofString kw)
+    pure ("ok " ++ Out.join (toString parts.length :: parts.map fun p => Out.str (Txt.toStr p)))
+  | "u_fetchtext" => some do
+    let s ← P.str; let i ← P.nat
+    pure (Out.exc (fun (w, j) => Out.str (Txt.toStr w) ++ " " ++ toString j) (Rd.fetchTextRow (Txt.ofString s) i))
+  | "u_fetchrow" => some do
+    let s ← P.str; let i ← P.nat
+    pure (Out.exc (fun (w, j) => Out.str (Txt.toStr w) ++ " " ++ toString j) (Rd.fetchRow (Txt.ofString s) i))
+  | "prep" => some do
+    let g ← P.tg (α := α); let blanks ← P.bool; let mn ← P.opt P.time; let mx ← P.opt P.time; let ml ← P.opt P.time
+    pure (Out.exc Out.tg (prepTg g blanks mn mx ml))
+  | "emit" => some do
+    let fmt ← P.tok
+    let g ← P.tg (α := α); let blanks ← P.bool; let mn ← P.opt P.time; let mx ← P.opt P.time; let ml ← P.opt P.time
+    -- numeral table supplied by CPython: value, int(value), repr(value), "%d" % value
+    let n ← P.nat
+    let table ← P.many n (do let x ← P.time (α := α); let tx ← P.time (α := α); let r ← P.str; let d ← P.str; pure (x, tx, r, d))
+    let num : α → String := fun x =>
+      match table.find? (fun e => Proto.toP e.1 == Proto.toP x) with
+      | some (_, tx, r, d) => if Tm.close14 x tx then d else r      -- my_math.numToStr
+      | none => "?"
+    match prepTg g blanks mn mx ml with
+    | .error e => pure ("err " ++ e.name)
+    | .ok g' =>
+      match g'.lo, g'.hi with
+      | some lo, some hi =>
+        if fmt == "short_textgrid" then pure ("ok " ++ Out.str (tgToShort num g' lo hi))
+        else if fmt == "long_textgrid" then pure ("ok " ++ Out.str (tgToLong num g' lo hi))
+        else throw s!"bad format {fmt}"
+      | _, _ => pure "err ValueError"
   | _ => none
